@@ -4,7 +4,7 @@ import importlib
 PROPS = {
     "C16": [("u_pkgallow", "quick"), ("u_orphan", "quick")],
     "C10": [("u_intlit", "quick"), ("u_dcefx", "quick")],
-    "C07": [("u_munify", "quick")],
+    "C07": [("u_munify", "quick"), ("u_tmono", "quick")],
     "C15": [("u_art", "quick"), ("u_link", "quick")],
     "C09": [("u_dcefx", "quick"), ("u_ceffect", "quick")],
     "C11": [("u_bp", "quick")],
